@@ -51,7 +51,7 @@ def main():
     dst = f"/verif/seeded/{sid}"
     os.makedirs(dst, exist_ok=True)
     for f in ("patch.diff", "demo.py", "notes.md"):
-        if os.path.exists(os.path.join(src, f)):
+        if os.path.exists(os.path.join(src, f)) and os.path.abspath(src) != os.path.abspath(dst):
             shutil.copy(os.path.join(src, f), os.path.join(dst, f))
     scratch = f"/tmp/seed_{sid}"
     shutil.rmtree(scratch, ignore_errors=True)
@@ -96,6 +96,8 @@ def main():
             sh(f"git -C /verif checkout -- evidence/{c}.json")
     finally:
         shutil.rmtree(scratch, ignore_errors=True)
+    if old.get("first_run"):
+        meta["first_run"] = old["first_run"]
     notes = os.path.join(dst, "notes.md")
     meta["needs"] = open(notes).read()[:1500] if os.path.exists(notes) else ""
     meta["ran"] = f"tools/seed.py {' '.join(args)}"
